@@ -33,17 +33,20 @@ def make_env_cls():
   class Scripted(Env):
     """Deterministic scripted environment; member identity and schedule come from the reset key."""
 
-    def __init__(self, table, gain=1.0, by_key=True):
+    def __init__(self, table, gain=1.0, by_key=True, done_dtype=jp.float32, latch=False):
       self.table = jp.asarray(np.asarray(table, np.int32))  # [NS, T]
       self.sys = ScriptSys(gain=jp.float32(gain))
       self.by_key = by_key
+      self.done_dtype = done_dtype   # environments are free to report done in a narrow dtype
+      self.latch = latch             # ... and to latch done = max(previous done, condition)
 
     def reset(self, rng):
       m = (rng[-1] % self.table.shape[0]).astype(jp.int32) if self.by_key else jp.int32(0)
       a0 = (self.sys.gain - 1.0) * jp.array([1.0, 2.0], jp.float32)   # the reset state depends on the system parameter
-      ps = {'t': jp.int32(0), 'm': m, 'acc': a0}
+      # 'blow' is 0 while the episode runs and +inf in the terminal state (a simulation that blew up and terminated)
+      ps = {'t': jp.int32(0), 'm': m, 'acc': a0, 'blow': jp.float32(0)}
       obs = jp.array([0.0, 0.0, 0.0]).at[1].set(a0[0]).at[2].set(a0[1]) + jp.array([1000.0, 0, 0]) * m
-      return State(ps, obs, jp.float32(0), jp.float32(0), {}, {})
+      return State(ps, obs, jp.float32(0), jp.zeros((), self.done_dtype), {}, {})
 
     def step(self, state, action):
       ps = state.pipeline_state
@@ -51,10 +54,12 @@ def make_env_cls():
       acc = ps['acc'] + jp.array([1.0, 2.0]) * action[0]
       tc = jp.clip(t1 - 1, 0, self.table.shape[1] - 1)
       done = jp.where(t1 - 1 < self.table.shape[1], self.table[ps['m'], tc], 0).astype(jp.float32)
+      if self.latch:
+        done = jp.maximum(done, state.done.astype(jp.float32))
       reward = self.sys.gain * (2.0 ** (t1 % 16)).astype(jp.float32)
       obs = jp.array([0.0, 0, 0]).at[0].set(1000.0 * ps['m'] + t1).at[1].set(acc[0]).at[2].set(acc[1])
-      nps = {'t': t1, 'm': ps['m'], 'acc': acc}
-      return state.replace(pipeline_state=nps, obs=obs, reward=reward, done=done)
+      nps = {'t': t1, 'm': ps['m'], 'acc': acc, 'blow': jp.where(done > 0, jp.inf, 0.0).astype(jp.float32)}
+      return state.replace(pipeline_state=nps, obs=obs, reward=reward, done=done.astype(self.done_dtype))
 
     @property
     def observation_size(self):
@@ -100,6 +105,7 @@ def _events_from_run(hdr, rec, m, B):
         'steps': int(st['steps'][m]), 'trunc': int(st['trunc'][m]),
         'fobs': [int(round(st['fobs'][m][0] - 1000 * st['m'][m])), int(round(st['fobs'][m][1]))],
         'ft': int(st['ft'][m]),
+        'blow': 0 if float(st['blow'][m]) == 0.0 else 1,
         'esum': int(round(float(st['esum'][m]))) if 'esum' in st else 0,
         'active': int(st['active'][m]) if 'active' in st else 0,
         'epsteps': int(st['epsteps'][m]) if 'epsteps' in st else 0,
@@ -120,8 +126,10 @@ def _snapshot(state, a=None):
   d = {
       'obs': np.asarray(state.obs), 't': np.asarray(state.pipeline_state['t']),
       'm': np.asarray(state.pipeline_state['m']), 'acc': np.asarray(state.pipeline_state['acc']),
-      'reward': np.asarray(state.reward), 'done': np.asarray(state.done),
-      'steps': np.asarray(state.info['steps']), 'trunc': np.asarray(state.info['truncation']),
+      'reward': np.asarray(state.reward), 'done': np.asarray(state.done).astype(np.float32),
+      'steps': np.asarray(state.info['steps'] if 'steps' in state.info else np.zeros_like(np.asarray(state.reward))).astype(np.float32),
+      'trunc': np.asarray(state.info['truncation'] if 'truncation' in state.info else np.zeros_like(np.asarray(state.reward))).astype(np.float32),
+      'blow': np.asarray(state.pipeline_state['blow']).astype(np.float32),
       'fobs': np.asarray(state.info['first_obs']), 'ft': np.asarray(state.info['first_pipeline_state']['t']),
   }
   if 'eval_metrics' in state.info:
@@ -133,7 +141,7 @@ def _snapshot(state, a=None):
   return d
 
 
-def run_config(ctx, r, L, R, order, scheds, nsteps, *, use_eval, random_actions, gains=None, label=''):
+def run_config(ctx, r, L, R, order, scheds, nsteps, *, use_eval, random_actions, gains=None, label='', done_dtype=None, noep=False):
   """Runs one wrapper stack on a batch whose member i follows scheds[i]; returns per-member traces."""
   import jax
   import jax.numpy as jp
@@ -145,8 +153,12 @@ def run_config(ctx, r, L, R, order, scheds, nsteps, *, use_eval, random_actions,
   table = np.zeros((B, T), np.int32)
   for i, s in enumerate(scheds):
     table[i, :len(s)] = s
-  env0 = Scripted(table)
-  if order == 'wrap':
+  import jax.numpy as _jp
+  env0 = Scripted(table, done_dtype=done_dtype or _jp.float32, latch=noep)
+  if order == 'autoreset_only':
+    # envs.create(..., episode_length=None, auto_reset=True): AutoResetWrapper without an EpisodeWrapper underneath
+    env = training.AutoResetWrapper(training.VmapWrapper(env0))
+  elif order == 'wrap':
     env = training.wrap(env0, episode_length=L, action_repeat=R)
   elif order == 'create':
     env = training.AutoResetWrapper(training.VmapWrapper(training.EpisodeWrapper(env0, L, R)))
@@ -205,7 +217,7 @@ def run_config(ctx, r, L, R, order, scheds, nsteps, *, use_eval, random_actions,
   traces = []
   for m in range(B):
     hdr = {'L': L, 'R': R, 'sched': [int(x) for x in scheds[int(member_sched[m])]], 'gain': int(gains[m]) if gains is not None else 1,
-           'eval': 1 if use_eval else 0, 'order': order, 'label': label}
+           'eval': 1 if use_eval else 0, 'order': order, 'label': label, 'noep': 1 if noep else 0}
     traces.append(_events_from_run(hdr, rec, m, B))
   return traces
 
@@ -315,6 +327,16 @@ def run(ctx):
     tr = run_config(ctx, r, L, R, 'randomized', sub, 3 * ((L + R - 1) // R) + 1, use_eval=True,
                     random_actions=False, gains=gains, label='domain-randomization')
     validate(ctx, tr, f'c15-rand-L{L}-R{R}')
+  # environments may report `done` in a narrow dtype; the step counter must still count to a long time limit
+  import jax.numpy as _jp
+  for dd in (_jp.bfloat16, _jp.uint8):
+    tr = run_config(ctx, r, 300, 1, 'wrap', [[0] * 8, [0] * 5 + [1]], 650 if not quick else 320, use_eval=False,
+                    random_actions=True, label=f'done-dtype-{dd.__name__}', done_dtype=dd)   # (stepped in a Python loop: a scan over steps needs a fixed info dtype)
+    validate(ctx, tr, f'c15-dtype-{dd.__name__}', invs=[x for x in INVS if x != 'EpisodeReplays'])
+  # AutoResetWrapper without an EpisodeWrapper (envs.create(episode_length=None)) around an env that latches `done`
+  sub = [[1 if r.random() < 0.2 else 0 for _ in range(30)] for _ in range(8)]
+  tr = run_config(ctx, r, 1000000, 1, 'autoreset_only', sub, 40, use_eval=False, random_actions=True, label='autoreset-only', noep=True)
+  validate(ctx, tr, 'c15-autoreset-only', invs=[])
   # longer random schedules, random actions, bigger L
   for i in range(4 if quick else 40):
     L, R = r.randint(1, 12), r.randint(1, 4)
